@@ -62,6 +62,46 @@ pub fn alloc_snapshot() -> (u64, u64) {
     (ALLOC_BYTES.load(Ordering::Relaxed), ALLOC_CALLS.load(Ordering::Relaxed))
 }
 
+// ---------------------------------------------------------------- per-case CPU watchdog
+
+/// incremented by the worker at the start of every case
+pub static CASE_SEQ: AtomicU64 = AtomicU64::new(0);
+pub const EXIT_CASE_TIMEOUT: i32 = 86;
+
+#[cfg(not(miri))]
+fn process_cpu_ms() -> u64 {
+    let mut ts = libc::timespec { tv_sec: 0, tv_nsec: 0 };
+    unsafe { libc::clock_gettime(libc::CLOCK_PROCESS_CPUTIME_ID, &mut ts) };
+    ts.tv_sec as u64 * 1000 + ts.tv_nsec as u64 / 1_000_000
+}
+
+/// A thread that ends the process (exit code 86) when one case has consumed
+/// more than `VMON_CASE_CPU_S` (default 10) CPU-seconds: a hang that the step
+/// hooks do not see. CPU time, not wall-clock, so a loaded machine cannot trip
+/// it. The driver replays the in-flight case alone before calling it a violation.
+pub fn start_case_watchdog() {
+    #[cfg(not(miri))]
+    {
+        let limit_ms: u64 = std::env::var("VMON_CASE_CPU_S").ok().and_then(|v| v.parse::<u64>().ok()).unwrap_or(10) * 1000;
+        std::thread::spawn(move || {
+            let mut last_seq = u64::MAX;
+            let mut cpu_at_change = process_cpu_ms();
+            loop {
+                std::thread::sleep(std::time::Duration::from_millis(200));
+                let seq = CASE_SEQ.load(Ordering::Relaxed);
+                let now = process_cpu_ms();
+                if seq != last_seq {
+                    last_seq = seq;
+                    cpu_at_change = now;
+                } else if now.saturating_sub(cpu_at_change) > limit_ms {
+                    eprintln!("vmon: case {} exceeded {} CPU-ms (watchdog)", seq, limit_ms);
+                    unsafe { libc::_exit(EXIT_CASE_TIMEOUT) };
+                }
+            }
+        });
+    }
+}
+
 // ---------------------------------------------------------------- PRNG
 
 /// xoshiro256** seeded through splitmix64.
